@@ -404,7 +404,7 @@ def run_func(func, parts):
         elif nested in ('true', 'false'):
             nst = nested == 'true'
         else:
-            nst = [(str(k) if keys is not None else int(k)) for k in nested]
+            nst = [(keys[int(k)] if (keys is not None and 0 <= int(k) < len(keys)) else int(k)) for k in nested]
         arg = dict(zip(keys, arrs)) if keys is not None else list(arrs)
         return getattr(ak, func)(arg, axis=axis, nested=nst)
     if func in ('combinations', 'argcombinations'):
